@@ -436,7 +436,6 @@ def b_mesh(case, ctx):
 
     # ---- default density / centre
     Vx, tV = model.V, model.tV
-    I0x = ex.inertia_origin()
 
     def check_state(tag, density, override):
         """compare every mass quantity of `mesh` in its current state with the oracle"""
